@@ -53,10 +53,16 @@ func genOverlap(g *xast.G, abs bool) *xast.Expr {
 			ax = "ancestor-or-self"
 		case 7:
 			ax = "namespace"
+		case 8:
+			ax = "child"
 		default:
 			ax = g.Axis()
 		}
 		s := &xast.Step{Axis: ax, Test: g.Test(ax)}
+		if ax == "child" && rapid.Bool().Draw(t, "childPred") {
+			// a predicate-bearing child step after several (nested, reversed) context nodes
+			s.Preds = append(s.Preds, g.Pred(1))
+		}
 		if ax == "parent" || ax == "ancestor" || ax == "ancestor-or-self" {
 			if rapid.Bool().Draw(t, "wideTest") {
 				s.Test = xast.Test{K: "node"}
